@@ -15,6 +15,7 @@ import (
 	"runtime"
 	"strconv"
 	"strings"
+	"sync"
 	"time"
 
 	"github.com/whoisnian/glb/logger"
@@ -22,6 +23,7 @@ import (
 	"verif/internal/attrgen"
 	"verif/internal/drv"
 	"verif/internal/logparse"
+	"verif/internal/recw"
 )
 
 var levels = []slog.Level{logger.LevelDebug, logger.LevelInfo, logger.LevelWarn, logger.LevelError, logger.LevelFatal}
@@ -257,6 +259,98 @@ func clipS(s string, n int) string {
 	return s
 }
 
+// relog is a LogValuer that logs through the very logger that is resolving it (re-entrant use
+// of one handler) and then resolves to a string.
+type relog struct {
+	l   *logger.Logger
+	msg string
+}
+
+func (r relog) LogValue() slog.Value {
+	r.l.Info(r.msg, "x", 1)
+	return slog.StringValue("resolved")
+}
+
+// runShared: several goroutines log through ONE logger derived with WithGroup (short keys), and
+// a LogValuer inside a group logs through the same logger while the outer record is being
+// formatted. Every written line must tokenise and carry exactly its own record.
+func runShared(n int, st *stats) (key, expected, observed string) {
+	groups := [][]string{{"g"}, {"req"}, {"a", "b"}, {"g", "h", "i"}}[n%4]
+	w := recw.New(20000, 0)
+	l := logger.New(logger.NewTextHandler(w, logger.NewOptions(logger.LevelDebug, false, false)))
+	if n%3 == 0 {
+		l = l.With("pre", n)
+	}
+	for _, g := range groups {
+		l = l.WithGroup(g)
+	}
+	prefix := strings.Join(groups, ".") + "."
+	var pre []string
+	if n%3 == 0 {
+		pre = []string{"pre", strconv.Itoa(n)}
+	}
+	const G, K = 8, 60
+	var wg sync.WaitGroup
+	start := make(chan struct{})
+	for g := 0; g < G; g++ {
+		wg.Add(1)
+		go func(g int) {
+			defer wg.Done()
+			<-start
+			for i := 0; i < K; i++ {
+				if g == 0 && i%10 == 0 {
+					l.Info(fmt.Sprintf("o%d-%d", g, i), slog.Group("sub", slog.Any("k", relog{l, fmt.Sprintf("in%d-%d", g, i)}), slog.Int("n", 2)))
+					continue
+				}
+				l.Info(fmt.Sprintf("r%d-%d", g, i), fmt.Sprintf("k%d", g), i, slog.Group("s", "v", g))
+			}
+		}(g)
+	}
+	close(start)
+	wg.Wait()
+	want := map[string][]string{}
+	for g := 0; g < G; g++ {
+		for i := 0; i < K; i++ {
+			if g == 0 && i%10 == 0 {
+				want[fmt.Sprintf("o%d-%d", g, i)] = []string{prefix + "sub.k", "resolved", prefix + "sub.n", "2"}
+				want[fmt.Sprintf("in%d-%d", g, i)] = []string{prefix + "x", "1"}
+				continue
+			}
+			want[fmt.Sprintf("r%d-%d", g, i)] = []string{prefix + fmt.Sprintf("k%d", g), strconv.Itoa(i), prefix + "s.v", strconv.Itoa(g)}
+		}
+	}
+	for _, pl := range w.Payloads() {
+		st.records++
+		pairs, err := logparse.TokenizeText(pl)
+		if err != nil {
+			return "shared-tokenize", "the line splits into key=value tokens", fmt.Sprintf("%v: %q", err, clip(pl, 600))
+		}
+		if len(pairs) < 3 || pairs[2].Key != "msg" {
+			return "shared-shape", "time level msg …", fmt.Sprintf("%q", clip(pl, 600))
+		}
+		exp, ok := want[pairs[2].Val]
+		if !ok {
+			return "shared-unknown", "every line belongs to one record that was logged, once", fmt.Sprintf("%q", clip(pl, 600))
+		}
+		delete(want, pairs[2].Val)
+		exp = append(append([]string(nil), pre...), exp...)
+		rest := pairs[3:]
+		if len(rest)*2 != len(exp) {
+			return "shared-content", fmt.Sprintf("attributes %q", exp), fmt.Sprintf("%q", clip(pl, 600))
+		}
+		for i, p := range rest {
+			if p.Key != exp[2*i] || p.Val != exp[2*i+1] {
+				return "shared-content", fmt.Sprintf("attributes %q (loggers shared by goroutines / used re-entrantly write their own record only)", exp), fmt.Sprintf("%q", clip(pl, 600))
+			}
+		}
+		st.attrs += int64(len(rest))
+	}
+	if len(want) > 0 {
+		return "shared-missing", "every record written", fmt.Sprintf("%d records missing", len(want))
+	}
+	return "", "", ""
+}
+
 // ---------------------------------------------------------------------------------------
 
 type mon struct{}
@@ -264,7 +358,7 @@ type mon struct{}
 func (mon) Name() string { return "logtext" }
 
 func (mon) Level(string) (string, string) {
-	return "exploration", "records logged through the public Logger API (Log / level methods / LogAttrs, derived with With/WithGroup) and through Handler.Handle with a chosen time; each written line is split by an independent tokenizer (pair = tok '=' tok; tok = Go-quoted string or bare run free of Unicode white space, '=' and '\"'; single spaces; one trailing newline) and the unquoted tokens must equal [time, level, (source), msg, dotted path/value of every attribute in order]. (a) string-exhaustive: '', every 1- and 2-byte string, Unicode scalars alone and embedded (quick: a seed-rotated 1/16, thorough: all), each used at once as message, key, value, group key and WithGroup name (so it also sits behind a 'g.' prefix); (b) shape-exhaustive derivation chains × forests as in C01 (≤4 quick / ≤5 thorough nodes); (c) seeded random deep records over 23 value kinds incl. TextMarshaler ok/failing, error, []byte, AnsiString, LogValuer. distinct_nontrivial = distinct record shapes plus distinct strings, by hash"
+	return "exploration", "records logged through the public Logger API (Log / level methods / LogAttrs, derived with With/WithGroup) and through Handler.Handle with a chosen time; each written line is split by an independent tokenizer (pair = tok '=' tok; tok = Go-quoted string or bare run free of Unicode white space, '=' and '\"'; single spaces; one trailing newline) and the unquoted tokens must equal [time, level, (source), msg, dotted path/value of every attribute in order]. (a) string-exhaustive: '', every 1- and 2-byte string, Unicode scalars alone and embedded (quick: a seed-rotated 1/16, thorough: all), each used at once as message, key, value, group key and WithGroup name (so it also sits behind a 'g.' prefix); (b) shape-exhaustive derivation chains × forests as in C01 (≤4 quick / ≤5 thorough nodes); (c) seeded random deep records over 23 value kinds incl. TextMarshaler ok/failing, error, []byte, AnsiString, LogValuer. (d) shared use: 8 goroutines logging through one WithGroup-derived logger while a LogValuer inside a group logs through the same logger re-entrantly, at GOMAXPROCS 2/4/16. distinct_nontrivial = distinct record shapes plus distinct strings, by hash"
 }
 
 func (mon) Assumptions(string) []string {
@@ -308,6 +402,10 @@ func (mon) Plan(prop, tier string, seed int64) []drv.Shard {
 		if p < 4 {
 			a, _ = json.Marshal(shardArgs{Kind: "sibling", Part: p, Parts: 4})
 			out = append(out, drv.Shard{Name: fmt.Sprintf("sibling-%d", p), Args: a})
+		}
+		if p < 3 {
+			a, _ = json.Marshal(shardArgs{Kind: "shared", Part: p, Count: nrand / 400})
+			out = append(out, drv.Shard{Name: fmt.Sprintf("shared-%d", p), Args: a, Env: []string{"GOMAXPROCS=" + []string{"2", "4", "16"}[p]}})
 		}
 	}
 	return out
@@ -366,6 +464,16 @@ func (mn mon) Run(sh drv.Shard, c *drv.Ctx) {
 			}
 			return exec(cs, attrgen.ShapeKey(r))
 		})
+	case "shared":
+		for i := 0; i < a.Count; i++ {
+			k, e, o := runShared(i+a.Part*1000, st)
+			c.Eval(1)
+			c.DistinctStr(fmt.Sprintf("shared %d/%d", a.Part, i))
+			if k != "" {
+				c.Violate(k, map[string]any{"shared_run": i + a.Part*1000}, e, o)
+				return
+			}
+		}
 	case "sibling":
 		// chains whose parents carry pre-rendered bytes of every length 0..200 (every spare
 		// capacity the append growth policy yields), with decoy siblings derived from each parent
